@@ -451,13 +451,108 @@ def oracle_reuse(inp):
     return out
 
 
-ORACLES = {'reuse': oracle_reuse, 'matrix': oracle_matrix, 'rotate': oracle_rotate, 'inverse': oracle_inverse, 'same': oracle_same, 'tilt': oracle_tilt}
+CALLERS = {'np.grid_sample': ('numpy', 'odak.tools.grid_sample'), 'np.box_volume_sample': ('numpy', 'odak.tools.box_volume_sample'),
+           'np.circular_sample': ('numpy', 'odak.tools.circular_sample'), 'np.circular_uniform_sample': ('numpy', 'odak.tools.circular_uniform_sample'),
+           'np.circular_uniform_random_sample': ('numpy', 'odak.tools.circular_uniform_random_sample'),
+           'np.define_plane': ('numpy', 'odak.raytracing.define_plane'), 't.grid_sample': ('torch', 'odak.learn.tools.grid_sample'),
+           't.define_plane': ('torch', 'odak.learn.raytracing.define_plane')}
+
+
+def call_caller(fn, no, size, center, angles, seed=0):
+    """(samples (n,3) float64, returned matrices or None) of a function that forwards to rotate_point(s)"""
+    import odak.tools.sample as ns_
+    import odak.learn.tools.sample as ts_
+    import odak.raytracing.primitives as nprim
+    import odak.learn.raytracing.primitives as tprim
+    c = [float(v) for v in center]; a = [float(v) for v in angles]
+    if fn == 'np.grid_sample': return np.asarray(ns_.grid_sample(no=list(no[:2]), size=list(size[:2]), center=c, angles=a), float), None
+    if fn == 'np.box_volume_sample': return np.asarray(ns_.box_volume_sample(no=list(no), size=list(size), center=c, angles=a), float), None
+    if fn == 'np.circular_sample': return np.asarray(ns_.circular_sample(no=list(no[:2]), radius=float(size[0]), center=c, angles=a), float), None
+    if fn == 'np.circular_uniform_sample': return np.asarray(ns_.circular_uniform_sample(no=list(no[:2]), radius=float(size[0]), center=c, angles=a), float), None
+    if fn == 'np.circular_uniform_random_sample':
+        np.random.seed(seed)
+        return np.asarray(ns_.circular_uniform_random_sample(no=list(no[:2]), radius=float(size[0]), center=c, angles=a), float), None
+    if fn == 'np.define_plane': return np.asarray(nprim.define_plane(np.array(c), angles=a), float), None
+    if fn == 't.grid_sample':
+        r, rx, ry, rz = ts_.grid_sample(no=list(no[:2]), size=list(size[:2]), center=c, angles=a)
+        g = lambda t: t.detach().numpy().astype(float)
+        return g(r), (g(rx), g(ry), g(rz))
+    if fn == 't.define_plane':
+        return tprim.define_plane(torch.tensor(c), angles=torch.tensor(a)).detach().numpy().astype(float), None
+    raise KeyError(fn)
+
+
+def oracle_caller(inp):
+    """functions that forward to rotate_point(s): result = R(tilt) * (their own untilted samples at the origin) + centre,
+    with tilt and centre both non-zero; NumPy = PyTorch; consistent with the matrices they return"""
+    fn = inp['fn']; which = CALLERS[fn][0]
+    no, size, seed = inp['no'], inp['size'], inp.get('seed', 0)
+    dtype = 'float64' if which == 'numpy' else 'float32'
+    center = [rep(dtype, v) for v in inp['center']]; angles = [rep(dtype, v) for v in inp['angles']]
+    out = []
+    try:
+        flat, _ = call_caller(fn, no, size, [0.0, 0.0, 0.0], [0.0, 0.0, 0.0], seed)
+        res, mats = call_caller(fn, no, size, center, angles, seed)
+    except Exception as e:
+        return [('no_exception', False, 'samples', repr(e))]
+    out.append(('shape', res.shape == flat.shape and res.ndim == 2 and res.shape[1] == 3, list(flat.shape), list(res.shape)))
+    if res.shape != flat.shape or res.ndim != 2:
+        return out
+    c = np.array(center)
+    scale = float(max(np.abs(flat).max(), np.abs(c).max(), 1e-300))
+    eps = 3e-15 if dtype == 'float64' else 2e-6
+    tol = (tol_angle(dtype, angles) + 8 * eps) * scale
+    want = (ref_matrix('XYZ', angles) @ flat.T).T + c
+    err = float(np.abs(res - want).max())
+    out.append(('tilt_then_translate_to_centre', err <= tol, '<= %g from R*flat + centre' % tol, {'err': err, 'got': res[:3].tolist(), 'want': want[:3].tolist()}))
+    d0, d1 = pair_dists(flat[:6]), pair_dists(res[:6])
+    if len(d0):
+        out.append(('pairwise_distances_preserved', float(np.abs(d0 - d1).max()) <= 16 * eps * scale + tol, 'as untilted', float(np.abs(d0 - d1).max())))
+    if fn in ('np.grid_sample', 't.grid_sample') and no[0] % 2 == 1 and no[1] % 2 == 1:
+        mid = res[(no[0] // 2) * no[1] + no[1] // 2]
+        out.append(('grid_centre_at_centre', float(np.abs(mid - c).max()) <= tol, center, mid.tolist()))
+    if fn == 'np.box_volume_sample' or fn.startswith('np.circular'):
+        pass
+    if fn in ('np.grid_sample', 't.grid_sample', 'np.define_plane', 't.define_plane'):
+        other = {'np.grid_sample': 't.grid_sample', 't.grid_sample': 'np.grid_sample', 'np.define_plane': 't.define_plane', 't.define_plane': 'np.define_plane'}[fn]
+        try:
+            ro, _ = call_caller(other, no, size, center, angles, seed)
+            t32 = (tol_angle('float32', angles) + 16e-6) * scale
+            ok = ro.shape == res.shape and float(np.abs(ro - res).max()) <= t32
+            out.append(('numpy_equals_torch', ok, '<= %g' % t32, float(np.abs(ro - res).max()) if ro.shape == res.shape else list(ro.shape)))
+        except Exception as e:
+            out.append(('no_exception', False, 'samples from the other API', repr(e)))
+    if mats is not None:
+        M = mats[2] @ mats[1] @ mats[0]
+        err = float(np.abs(res - ((M @ flat.T).T + c)).max())
+        out.append(('consistent_with_returned_matrices', err <= tol, '<= %g from rotz*roty*rotx*flat + centre' % tol, err))
+        worst = max(float(np.abs(m - axis(ax, a)).max()) for m, ax, a in zip(mats, 'xyz', angles))
+        out.append(('returned_axis_matrices', worst <= tol_angle(dtype, angles) + 8 * eps, 'rotmatx/y/z of the tilt', worst))
+    return out
+
+
+def oracle_ray_from_angles(inp):
+    """NOT run by run(): odak.raytracing.create_ray_from_angles (outside C13's anchor files) -- start = point, direction = R e_z"""
+    from odak.raytracing import create_ray_from_angles
+    p = [float(v) for v in inp['point']]; a = [float(v) for v in inp['angles']]; mode = inp.get('mode', 'XYZ')
+    try:
+        ray = np.asarray(create_ray_from_angles(np.array(p), np.array(a), mode=mode), float).reshape(2, 3)
+    except Exception as e:
+        return [('no_exception', False, 'a ray', repr(e))]
+    want = ref_matrix(mode, a) @ np.array([0.0, 0.0, 1.0])
+    return [('ray_starts_at_point', float(np.abs(ray[0] - np.array(p)).max()) <= 1e-12, p, ray[0].tolist()),
+            ('ray_direction_is_rotated_z_axis', float(np.abs(ray[1] - want).max()) <= 1e-9, want.tolist(), ray[1].tolist())]
+
+
+ORACLES = {'caller': oracle_caller, 'ray_from_angles': oracle_ray_from_angles, 'reuse': oracle_reuse, 'matrix': oracle_matrix, 'rotate': oracle_rotate, 'inverse': oracle_inverse, 'same': oracle_same, 'tilt': oracle_tilt}
 
 
 def fn_of(name, inp):
     if name == 'matrix': return FN[(inp['api'], inp['fn'])]
     if name == 'rotate': return FN[(inp['api'], inp['fn'])]
     if name == 'inverse': return FN[('numpy', 'bring_plane_to_origin')] if inp['api'] == 'numpy' else FN[('torch', 'rotate_points')]
+    if name == 'caller': return CALLERS[inp['fn']][1]
+    if name == 'ray_from_angles': return 'odak.raytracing.create_ray_from_angles'
     if name == 'reuse': return FN[(inp['api'], inp.get('fn', 'rotate_points'))]
     if name == 'same': return 'odak.tools.rotate_points|odak.learn.tools.rotate_points'
     return FN[(inp['api'], 'tilt_towards')]
@@ -603,6 +698,49 @@ def gen_same_cases(ctx, n):
         dtype = 'float32' if i % 4 == 3 else 'float64'
         if dtype == 'float32': angles = [a if abs(a) <= 1e6 else 1e6 for a in angles]
         out.append({'mode': MODES[i % 5], 'angles': angles, 'points': pts, 'origin': origin, 'offset': offset, 'dtype': dtype})
+    return out
+
+
+def distinct3(rng, s):
+    """three non-zero values with pairwise distinct magnitudes and mixed signs"""
+    while True:
+        v = [rng.choice([-1, 1]) * rng.uniform(0.2, 1.0) * s for _ in range(3)]
+        if min(abs(abs(v[0]) - abs(v[1])), abs(abs(v[0]) - abs(v[2])), abs(abs(v[1]) - abs(v[2]))) > 0.05 * s:
+            return v
+
+
+def gen_caller_cases(ctx, n):
+    """tilt and centre BOTH non-zero with distinct x, y, z, for every forwarding function; plus tilt-only / centre-only"""
+    rng = ctx.rng
+    out = []
+    fns = list(CALLERS)
+    for i in range(n):
+        fn = fns[i % len(fns)]
+        k = i // len(fns)
+        center = distinct3(rng, [1.0, 10.0, 0.05][k % 3]); angles = distinct3(rng, 180.0)
+        if k % 5 == 3: center = [0.0, 0.0, 0.0]
+        if k % 5 == 4: angles = [0.0, 0.0, 0.0]
+        if k % 7 == 5: angles = [rng.choice([90.0, -90.0, 180.0, 270.0, 45.0, 360.0 + 30.0]) for _ in range(3)]
+        no = [[5, 7, 3], [4, 3, 2], [3, 3, 3], [2, 2, 2], [6, 5, 4]][k % 5]
+        if fn == 'np.circular_uniform_sample': no = [no[0] + 1, 6 + no[1], 1]
+        size = [rng.uniform(0.5, 8.0), rng.uniform(0.5, 8.0), rng.uniform(0.5, 8.0)]
+        out.append({'fn': fn, 'no': no, 'size': size, 'center': center, 'angles': angles, 'seed': rng.randrange(10 ** 6)})
+    return out
+
+
+def gen_joint_rotate_cases(ctx, n):
+    """rotate_point / rotate_points of both APIs with angles, origin AND offset all non-zero, pairwise different vectors
+    with distinct x, y, z"""
+    rng = ctx.rng
+    out = []
+    combos = [('numpy', 'rotate_points', 'float64'), ('numpy', 'rotate_point', 'float64'), ('torch', 'rotate_points', 'float64'), ('torch', 'rotate_points', 'float32')]
+    for i in range(n):
+        which, fn, dtype = combos[i % 4]
+        s = [1.0, 10.0, 0.1][i % 3]
+        inp = {'api': which, 'fn': fn, 'mode': MODES[(i // 4) % 5], 'angles': distinct3(rng, 180.0), 'points': [distinct3(rng, s) for _ in range(1 + i % 4)],
+               'origin': distinct3(rng, s), 'offset': distinct3(rng, 3 * s), 'dtype': dtype}
+        if fn == 'rotate_point': inp['single'] = True
+        out.append(inp)
     return out
 
 
@@ -825,6 +963,19 @@ def self_check(ctx, g, ncase):
             b = np.asarray(rp.bring_plane_to_origin(np.array(pts, float), None, center=list(origin), angles=list(angles), mode=mode)).reshape(-1, 3)
             for j in range(2):
                 for k in range(3): cmp('n_bpo_%s_%d_%d' % (mode, j, k), env, b[j, k])
+        # forwarding callers (traced with 2 x 2 grids / 2 x 1 x 2 boxes)
+        size = [rng.uniform(0.5, 4.0) for _ in range(3)]; cen = origin
+        for k in range(3): env['s_%d' % k] = size[k]; env['q_%d' % k] = cen[k]
+        for fn, pre, nn, flatpre in (('np.grid_sample', 'n_grid', [2, 2, 1], 'n_grid0'), ('t.grid_sample', 't_grid', [2, 2, 1], 't_grid0'),
+                                     ('np.box_volume_sample', 'n_box', [2, 1, 2], 'n_box0'), ('np.define_plane', 'n_plane', None, 'n_plane0'),
+                                     ('t.define_plane', 't_plane', None, 't_plane0')):
+            rr, _ = call_caller(fn, nn or [2, 2, 1], size, cen, angles, 0)
+            r0, _ = call_caller(fn, nn or [2, 2, 1], size, [0.0, 0.0, 0.0], [0.0, 0.0, 0.0], 0)
+            lo = fn.startswith('t.')
+            for j in range(rr.shape[0]):
+                for k in range(3):
+                    cmp('%s_%d_%d' % (pre, j, k), env, rr[j, k], 1e-5 if lo else 1e-9, 3e-5 if lo else 1e-11)
+                    cmp('%s_%d_%d' % (flatpre, j, k), env, r0[j, k], 1e-5 if lo else 1e-9, 3e-5 if lo else 1e-11)
         loc, look = gen_vec(rng, 1.0), gen_vec(rng, 1.0)
         for k in range(3): env['l_%d' % k] = loc[k]; env['k_%d' % k] = look[k]
         tn = nt.tilt_towards(list(loc), list(look)); tq = tt.tilt_towards(list(loc), list(look))
@@ -853,6 +1004,16 @@ def run_oracles(ctx, scale=1):
     for inp in gen_same_cases(ctx, 60 * scale):
         bad, res = apply_oracle(ctx, 'same', inp); n_or += 1
         ctx.case('same/%s/%s' % (inp['mode'], inp['dtype']), ('s', json.dumps(inp, sort_keys=True)), nontrivial=len(res) >= 5)
+    for inp in gen_joint_rotate_cases(ctx, 40 * scale):
+        bad, res = apply_oracle(ctx, 'rotate', inp); n_or += 1
+        ctx.case('rotate-joint/%s/%s/%s/%s' % (inp['api'], inp['fn'], inp['mode'], inp['dtype']), ('rj', json.dumps(inp, sort_keys=True)), nontrivial=len(res) >= 5)
+        bad, res = apply_oracle(ctx, 'same', {k: inp[k] for k in ('mode', 'angles', 'points', 'origin', 'offset', 'dtype')}); n_or += 1
+    for inp in gen_caller_cases(ctx, 64 * scale):
+        bad, res = apply_oracle(ctx, 'caller', inp); n_or += 1
+        both = any(inp['center']) and any(inp['angles'])
+        ctx.case('caller/%s/%s' % (inp['fn'], 'tilt+centre' if both else 'one-of'), ('c', json.dumps(inp, sort_keys=True)), nontrivial=both and len(res) >= 3)
+        if both and len(ctx.samples) < 6:
+            ctx.sample({'oracle': 'caller', 'input': inp, 'clauses': [r[0] for r in res]})
     for inp in gen_reuse_cases(ctx, 48 * scale):
         bad, res = apply_oracle(ctx, 'reuse', inp); n_or += 1
         ctx.case('reuse/%s/%s/%s/%s' % (inp['api'], inp['fn'], inp['dtype'], inp.get('via', 'native')), ('u', json.dumps(inp, sort_keys=True)), nontrivial=len(res) >= 5)
@@ -894,7 +1055,7 @@ def run(ctx):
         g = None
         ctx.obligation('translator:trace', False, repr(e))
     if g is not None:
-        ctx.compile_tie('GenC13', g.text(), [['C13_TieA', 'C13_TieB', 'C13_TieC', 'C13_TieD'], ['C13_TieProps']])
+        ctx.compile_tie('GenC13', g.text(), [['C13_TieA', 'C13_TieB', 'C13_TieC', 'C13_TieD', 'C13_TieE'], ['C13_TieProps']])
         try:
             self_check(ctx, g, 60 if ctx.thorough else 20)
         except Exception as e:
